@@ -17,6 +17,14 @@
 // name requested through the standalone and the server path: refused, or
 // served by exactly the key configured under that exact name.
 //
+// Further (leafalgs.go, concurrent.go): leaf certificates over every
+// public-key algorithm a certificate can carry (fixtures/keys/leafalgs) x
+// every signer key, handed to the builders directly and configured as the
+// certificate file; and 2-3 concurrent requests for different key names
+// through one token cache / one server, every interleaving up to a preemption
+// bound (cooperative scheduler verif/mc): each request is refused or served by
+// the key configured under the name it asked for.
+//
 // Development knobs (never needed by ./check):
 //
 //	C07_KNOWN_EXTRA=key1,key2   treat these violation keys as known findings
@@ -83,6 +91,7 @@ type keyCfg struct {
 	WantLeaf  string `json:"want_leaf,omitempty"` // fixture key whose leaf must be the embedded one
 	WantPGP   string `json:"want_pgp,omitempty"`
 	OnlyPGP   bool   `json:"only_openpgp_types,omitempty"` // run with the OpenPGP signature types only
+	OnlyX509  bool   `json:"only_x509_types,omitempty"`    // run with the X.509 signature types only
 
 	KeyFile   string   `json:"key_file"`
 	X509File  string   `json:"x509_file,omitempty"`
@@ -231,6 +240,8 @@ func enumConfigs() []keyCfg {
 		PGPSrc: "file-same-via-token", PGPClass: clConsistent, PGPFile: fx("rsaA.pgp"), WantPGP: "rsaA"})
 	// OpenPGP certificate structures (primary + subkeys) x which of its keys, if any, the token holds
 	pgpStructConfigs(add)
+	// certificate files whose leaf carries a key of every algorithm a certificate can carry
+	leafAlgConfigs(add)
 	seen := map[string]bool{}
 	for _, c := range out {
 		if seen[c.ID] {
@@ -754,10 +765,15 @@ type workItem struct {
 	hash   crypto.Hash
 	via    pathKind
 	names  bool // ci indexes nameCases() instead of the key configurations
+	conc   bool // ci indexes concCases(): concurrent requests for different keys
 }
 
 func workList(cfgs []keyCfg, types []sigType, thorough bool) []workItem {
 	var out []workItem
+	// concurrent requests for different key names: one item per scenario x type x path (first: the longest items)
+	for i := range concCases(thorough) {
+		out = append(out, workItem{ci: i, conc: true})
+	}
 	// key-name phase: every name case x signature type (quick: one per mechanism) x {standalone, server}
 	for ni, nc := range nameCases() {
 		for ti, t := range types {
@@ -767,7 +783,7 @@ func workList(cfgs []keyCfg, types []sigType, thorough bool) []workItem {
 			if t.Cert == "pgp" && nc.KeyA != "rsaA" {
 				continue // the EC fixture keys have no OpenPGP certificate
 			}
-			out = append(out, workItem{ni, ti, crypto.SHA256, pathStandalone, true}, workItem{ni, ti, crypto.SHA256, pathServer, true})
+			out = append(out, workItem{ci: ni, ti: ti, hash: crypto.SHA256, via: pathStandalone, names: true}, workItem{ci: ni, ti: ti, hash: crypto.SHA256, via: pathServer, names: true})
 		}
 	}
 	for ci, c := range cfgs {
@@ -775,7 +791,7 @@ func workList(cfgs []keyCfg, types []sigType, thorough bool) []workItem {
 			if t.Thorough && !thorough {
 				continue
 			}
-			if c.OnlyPGP && t.Cert != "pgp" {
+			if c.OnlyPGP && t.Cert != "pgp" || c.OnlyX509 && t.Cert != "x509" {
 				continue
 			}
 			if c.Worker != "" {
@@ -867,6 +883,11 @@ func main() {
 		}
 		tmp, err := os.MkdirTemp(tmpBase, "c07-only-")
 		must(err)
+		for _, cc := range concCases(true) {
+			if cc.id() == parts[0] && (len(parts) < 2 || parts[1] == "" || cc.Type == parts[1]) && (onlyPath == "" || cc.Via == onlyPath) {
+				runConcCase(cc, tmp, run.Thorough(), true)
+			}
+		}
 		for _, nc := range nameCases() {
 			for _, t := range types {
 				if nc.ID == parts[0] && (len(parts) < 2 || parts[1] == "" || t.ID == parts[1]) {
@@ -922,6 +943,7 @@ func main() {
 		os.RemoveAll(tmp)
 		nlib := libraryCases()
 		run.Set("library_builder_cases", nlib)
+		run.Set("library_builder_cases_leaf_key_algorithms", leafAlgLibraryCases())
 		if len(harnessErrors) > 0 {
 			for _, h := range harnessErrors {
 				fmt.Println("HARNESS-ERROR:", h)
@@ -946,10 +968,15 @@ func main() {
 	}
 	si, sn := vlib.ShardIndex()
 	ncases := nameCases()
+	ccases := concCases(run.Thorough())
 	tmp, err := os.MkdirTemp(tmpBase, "c07-shard-")
 	must(err)
 	for wi, w := range work {
 		if wi%sn != si {
+			continue
+		}
+		if w.conc {
+			runConcCase(ccases[w.ci], tmp, run.Thorough(), false)
 			continue
 		}
 		if w.names {
@@ -993,15 +1020,21 @@ func finish(cfgs []keyCfg, types []sigType, nwork int) {
 		"openpgp_token_keys":             pgpTokenKeys,
 		"key_name_pairs":                 namePairs(),
 		"key_name_cases":                 len(nameCases()),
+		"leaf_key_algorithms":            leafAlgs,
+		"leaf_key_algorithm_signers":     laSigners(),
+		"concurrent_request_scenarios":   concCaseNames(run.Thorough()),
+		"concurrent_preemption_bound":    concPreemptions(run.Thorough()),
 		"hashes":                         map[bool][]string{false: {"sha256"}, true: {"sha256", "sha1", "sha384", "sha512"}}[run.Thorough()],
-		"paths":                          map[bool][]string{false: {"standalone", "worker-rpc (10 rotation scenarios)"}, true: {"standalone", "worker-rpc (10 rotation scenarios)", "server-handler (non-PKCS#12 configurations, sha256)"}}[run.Thorough()],
+		"paths":                          map[bool][]string{false: {"standalone", "worker-rpc (10 rotation scenarios)", "token-stack and server-handler under concurrent requests"}, true: {"standalone", "worker-rpc (10 rotation scenarios)", "server-handler (non-PKCS#12 configurations, sha256)", "token-stack and server-handler under concurrent requests"}}[run.Thorough()],
 	})
-	run.Rule("full product key configuration x signature type (thorough: x digest in {sha256,sha1,sha384,sha512}, plus the server-handler path with sha256): private key in {rsaA,rsaB,p256A,p256B,p384}; X.509 source in {leaf file, chain leaf-first, leaf-last, root-first, +unrelated root, +other leaf last/first, PKCS#7 bundle (PEM/DER/leaf-only/leaf-last, made by openssl), PKCS#12 (matching / key A leaf B / chain root-first / overridden by a file), certificate stored in the token (matching / other / leaf-last / stale), file of another key (same type, same curve other point, other curve, other algorithm), none, alias}; OpenPGP source in {matching, other key, other key type, two-entity keyrings binary/one armor/two armors in both orders, none}; token lookup in {requested key, a different key (same type / other type) for the requested name}; worker-RPC path (relic's worker client -> worker handler -> token cache -> scripted token, as used for pkcs11 tokens) with the key under the requested name {stable, replaced after the caller's lookup while the worker's cache entry is live / has expired, token honouring the caller's key id, token without key ids}. OpenPGP certificate structures (generated from the RSA fixture keys, read back packet by packet): primary + {one signing subkey (both role assignments), one encryption-only subkey, two signing subkeys in both orders, encryption subkey + signing subkey, one revoked signing subkey} x token key in {rsaA, rsaB, a third RSA key, p256A} = the primary / the n-th subkey / none of the certificate's keys, x every OpenPGP signature type {deb, rpm, pgp detached, detached armor+text, clearsign, inline}: error, or every signature packet names (issuer key id, issuer fingerprint) the key packet that is the token's key and verifies under exactly that key packet. Key names: a configuration FILE (loaded with config.ReadFile) with two keys (second one direct or an alias of a third entry) whose names are {distinct control, equal up to ASCII case (initial / all), equal up to a leading / trailing space / trailing tab, case + blanks, Unicode case folding} x key material {rsaA+rsaB, p256A+p256B} x request in {name A, name B, an alias of A, an alias of B, an unconfigured name that normalises to both} x {standalone, server handler} x signature type (quick: ps, appmanifest, apk v2, xar, rpm, pgp clearsign; thorough: all): error, or leaf / key / OpenPGP issuer of every signature = those configured under exactly the requested name (unconfigured name: only self-consistency is judged). Separately: relic's signature builders called directly (pkcs7.SignatureBuilder with/without signed attributes, xmldsig.Sign, xmldsig.SignEnveloping) x 5 private keys x 7 certificate lists. distinct_nontrivial = cases whose configuration is inconsistent, order-variant, certificate-less, token-based or uses a certificate source other than the plain chain/PGP file")
+	run.Rule("full product key configuration x signature type (thorough: x digest in {sha256,sha1,sha384,sha512}, plus the server-handler path with sha256): private key in {rsaA,rsaB,p256A,p256B,p384}; X.509 source in {leaf file, chain leaf-first, leaf-last, root-first, +unrelated root, +other leaf last/first, PKCS#7 bundle (PEM/DER/leaf-only/leaf-last, made by openssl), PKCS#12 (matching / key A leaf B / chain root-first / overridden by a file), certificate stored in the token (matching / other / leaf-last / stale), file of another key (same type, same curve other point, other curve, other algorithm), none, alias}; OpenPGP source in {matching, other key, other key type, two-entity keyrings binary/one armor/two armors in both orders, none}; token lookup in {requested key, a different key (same type / other type) for the requested name}; worker-RPC path (relic's worker client -> worker handler -> token cache -> scripted token, as used for pkcs11 tokens) with the key under the requested name {stable, replaced after the caller's lookup while the worker's cache entry is live / has expired, token honouring the caller's key id, token without key ids}. OpenPGP certificate structures (generated from the RSA fixture keys, read back packet by packet): primary + {one signing subkey (both role assignments), one encryption-only subkey, two signing subkeys in both orders, encryption subkey + signing subkey, one revoked signing subkey} x token key in {rsaA, rsaB, a third RSA key, p256A} = the primary / the n-th subkey / none of the certificate's keys, x every OpenPGP signature type {deb, rpm, pgp detached, detached armor+text, clearsign, inline}: error, or every signature packet names (issuer key id, issuer fingerprint) the key packet that is the token's key and verifies under exactly that key packet. Key names: a configuration FILE (loaded with config.ReadFile) with two keys (second one direct or an alias of a third entry) whose names are {distinct control, equal up to ASCII case (initial / all), equal up to a leading / trailing space / trailing tab, case + blanks, Unicode case folding} x key material {rsaA+rsaB, p256A+p256B} x request in {name A, name B, an alias of A, an alias of B, an unconfigured name that normalises to both} x {standalone, server handler} x signature type (quick: ps, appmanifest, apk v2, xar, rpm, pgp clearsign; thorough: all): error, or leaf / key / OpenPGP issuer of every signature = those configured under exactly the requested name (unconfigured name: only self-consistency is judged). Separately: relic's signature builders called directly (pkcs7.SignatureBuilder with/without signed attributes, xmldsig.Sign, xmldsig.SignEnveloping, each XML builder under 4 KeyInfo option sets) x 5 private keys x 7 certificate lists. Leaf KEY ALGORITHMS: one leaf certificate per public-key algorithm a certificate can carry (fixtures/keys/leafalgs, made by openssl over fresh unrelated keys: rsaEncryption, id-RSASSA-PSS without and with parameters, id-dsa, id-ecPublicKey on P-224/P-256/P-384/P-521, Ed25519, Ed448, X25519, X448, ML-DSA-44), (i) handed to every builder directly: signer in {the 5 fixture keys, the leafalgs keys Go can sign with: RSA, P-224, P-256, P-384, P-521, Ed25519} x every such leaf x {leaf + intermediate, leaf alone, leaf followed by the signer's own leaf}: refusal unless leaf and signer are the same fixture (then: refusal, or leaf first and the signature verifying under it), (ii) as the configured certificate file (chain) of key file rsaA / p256A x every X.509 signature type through the pipeline. CONCURRENT requests for different key names: 2-3 threads, each requesting a key name of its own / the same name / an alias (3 keys + 1 alias on one scripted token), through ONE instance of the server's token stack (tokencache.New(tokencache.Metrics{token}), standalone pipeline) or ONE server handler, with the cache entries cold / live / expired / caching off, x {ps (X.509), pgp detached (OpenPGP)}; every interleaving up to 2 (thorough 3) preemptions of the threads at the token's operations (lookup, sign) and the key cache's lock operations (sync rewritten to verif/shim/vsync), threads parked on unhooked primitives followed by the scheduler's monitor: every request ends in an error or an artifact whose leaf / OpenPGP issuer is the one configured under the requested name and verifies the signature value. distinct_nontrivial = cases whose configuration is inconsistent, order-variant, certificate-less, token-based or uses a certificate source other than the plain chain/PGP file")
 	run.Assume("canonical bytes of XML-DSig SignedInfo are taken from relic's xmldsig.SerializeCanonical (canonicalisation is C19's subject); digest and RSA/ECDSA verification over them are the harness's (Go crypto)")
 	run.Assume("OpenPGP packets are read and hashed with ProtonMail go-crypto's packet layer (PublicKey.VerifySignature), not with relic's pgptools; the key an OpenPGP signature 'embeds' is the issuer it names (issuer key id subpacket, else issuer fingerprint; when both are present they must name one key); it is verified under exactly that key packet, primary or subkey, without applying any usage-flag, revocation or key-selection policy; inline messages are read packet by packet (compressed / one-pass / literal / signature)")
 	run.Assume("whether relic accepts a token key that is a SUBKEY of the configured OpenPGP certificate is not judged (the unchanged tree refuses it): only that an emitted signature names and verifies under the token's key. A requested key name that is not configured but equals a configured one after case folding / trimming may be refused or served: only self-consistency of the artifact is judged")
 	run.Assume("a scripted token answers a lookup with the configuration entry of the requested name (as every relic token does); a token that returns another key together with that key's own certificate is indistinguishable from a correct lookup and is not enumerated")
 	run.Assume("in the worker-RPC scenarios the scripted token stands for relic's pkcs11 token: it resolves keys by the configured name only and ignores the key id passed in the request context (as token/p11token/key.go does); the cache lifetime is relic's default (600 s) and is run out on a virtual clock (token/tokencache's time import rewritten to verif/shim/vtime)")
+	run.Assume("a leaf certificate 'belongs to' a signing key exactly when the subjectPublicKey bits of its SubjectPublicKeyInfo are the signer's (established at start-up on the encoded bytes for every signer x leafalgs leaf); a leaf of another SubjectPublicKeyInfo algorithm over the SAME key bits (an RSASSA-PSS certificate for the signer's own modulus) is not enumerated. EC keys over curves for which crypto/x509 refuses to parse a certificate (secp256k1, brainpool, explicit parameters) cannot reach relic as a certificate and are not enumerated")
+	run.Assume("concurrent requests: scheduling points are the scripted token's operations and the key cache's mutex operations; code between two such points runs atomically (no preemption inside the certificate loader or a signer module). A request that is refused, panics or does not finish is not a violation here (liveness: C14)")
 	run.Assume("for CMS only the signature value is judged (signed attributes re-tagged as SET, or the content when there are none): messageDigest/content binding is C01/C02's subject")
 	run.Assume("the certificates field of CMS SignedData, X509Data, the APK v2 certificate sequence, the xar KeyInfo and the VSIX relationship part are treated as ordered lists whose first member must be the signer's certificate")
 	if len(extraKnown) > 0 {
